@@ -7,8 +7,10 @@
 
 use std::ops::Add;
 use std::path::Path;
+#[cfg(not(scrut_verif))]
 use std::thread::sleep;
 use std::time::Duration;
+#[cfg(not(scrut_verif))]
 use std::time::Instant;
 
 use anyhow::Context;
@@ -23,6 +25,10 @@ use super::executor::DEFAULT_TOTAL_TIMEOUT;
 use super::executor::Executor;
 use super::executor::Result;
 use super::runner::Runner;
+#[cfg(scrut_verif)]
+use super::verif_clock::Instant;
+#[cfg(scrut_verif)]
+use super::verif_clock::sleep;
 use crate::executors::error::ExecutionTimeout;
 use crate::output::ExitStatus;
 use crate::output::Output;
